@@ -118,3 +118,46 @@ UNITS.append(dict(
     selftest=[('__gmpz_clrbit', r'if \(limb_index > zero_bound\)', 'if (limb_index >= zero_bound)'),
               ('__gmpz_clrbit', r'dsize\+\+;', ';'),
               ('__gmpz_clrbit', r'd->_mp_size = dsize;', 'd->_mp_size = dsize + 1;')]))
+
+# ------------------------------------------------------------------ mpz_combit, two partitions (the others - d < 0 with the bit at or above the lowest non-zero limb - have no unit)
+from c03_mpz import norm_loop
+COMBIT_CONTRACT = (CONTRACT % '__gmpz_combit').replace('__CPROVER_object_whole (V_PTR (d))', '__CPROVER_object_whole (V_PTR (d)), g_ci, g_co, g2_ci, g2_co, gk, gj').replace(
+    'V_WF_AT (d, gk)', 'V_WF_AT (d, gk) && gk == __CPROVER_old (gk)')
+COMBIT_REWRITE = [(r'__gmpn_sub_1\(dp\+limb_index, dp\+limb_index, dsize \+ limb_index, bit\);', '__gmpn_sub_1(dp+limb_index, dp+limb_index, dsize - limb_index, bit);',
+                   'length argument of the in-place mpn_sub_1: dsize + limb_index (more limbs than the block holds above limb_index) read as dsize - limb_index')]
+COMBIT_ASM = ['`mpn_sub_1 (dp+limb_index, dp+limb_index, dsize + limb_index, bit)`: the length names limbs beyond the number; the in-place inline mpn_sub_1 stops where the borrow ends and never touches them, so no access '
+              'leaves the block in the real code, but the call does not meet the documented operand-size precondition.  REWRITTEN in the verified text to `dsize - limb_index` (GMP 6 has this form)']
+COMBIT_POS_POST = '''  long top = n > li + 1 ? n : li + 1;
+  __CPROVER_assert (sw >= 0 && wn <= top, "[C10] d >= 0: stays non-negative, at most max (n, bit/64 + 1) limbs");
+  __CPROVER_assert (gk < wn ==> Wk == (Dk ^ (gk == li ? bit : 0)), "[C10] d >= 0: limb gk = old limb with the bit flipped in limb bit/64 (zero fill in between)");
+  __CPROVER_assert ((wn <= gk && gk < top) ==> (Dk ^ (gk == li ? bit : 0)) == 0, "[C10][C04] d >= 0: the limbs dropped by normalisation are zero in the exact result");'''
+UNITS.append(dict(
+    name='mpz_combit_pos', props=['C10', 'C04', 'C15'], source='mpz/combit.c', contracts=['mpn.h', 'mpz.h', 'c10.h'],
+    contract_text=COMBIT_CONTRACT, enforce=['__gmpz_combit'], replace=['__gmpz_realloc', '__gmpn_sub_1'],
+    assumptions=['partition: d >= 0'] + COMBIT_ASM,
+    functions={'__gmpz_combit': dict(entry=ENTRY, rewrites=COMBIT_REWRITE,
+        loops={0: store_loop('gk - dsize'), 1: norm_loop('dp', 'dsize'), 2: 'unreachable', 3: 'unreachable', 4: 'unreachable', 5: 'unreachable', 6: 'unreachable'})},
+    replay='mpz_combit', harness=(SETBIT_H.replace('h_mpz_setbit', 'h_mpz_combit_pos').replace('mp_limb_t Dk = ', '__CPROVER_assume (sd >= 0);\n  mp_limb_t Dk = ')) % dict(D=mpz_obj('D'), f='__gmpz_combit', post=COMBIT_POS_POST),
+    timeout=900,
+    selftest=[('__gmpz_combit', r'dp\[limb_index\] \^= bit;', 'dp[limb_index] |= bit;'), ('__gmpz_combit', r'\(limb_index \+ 1\) > \(\(d\)->_mp_alloc\)', '(limb_index) > ((d)->_mp_alloc)')]))
+
+# d < 0, bit inside the low zero limbs (bit/64 < lz): the string has a 0 there, combit sets it, the magnitude decreases by `bit` at limb bit/64 and the borrow
+# runs up through the zero limbs: borrow chain at gk (relative position gk - bit/64 handed to mpn_sub_1's contract)
+COMBIT_NEG_POST = '''  __CPROVER_assert (sw <= 0 && wn <= n, "[C10] d < 0, bit in the low zero limbs: not positive, does not grow");
+  __CPROVER_assert (gk < li ==> Wk == Dk, "[C10] limbs below bit/64 unchanged");
+  __CPROVER_assert ((li <= gk && gk < n) ==> (g_ci <= 1 && g_co <= 1 && V_SUBREL ((gk < wn ? Wk : 0), Dk, (gk == li ? bit : 0), g_ci, g_co)), "[C10] |d'| = |d| - bit*B^(bit/64): borrow chain at limb gk");
+  __CPROVER_assert (gk == li ==> g_ci == 0, "[C10] no borrow into limb bit/64");'''
+UNITS.append(dict(
+    name='mpz_combit_neg_low', props=['C10', 'C04', 'C15'], source='mpz/combit.c', contracts=['mpn.h', 'mpz.h', 'c10.h'],
+    contract_text=COMBIT_CONTRACT, enforce=['__gmpz_combit'], replace=['__gmpz_realloc', '__gmpn_sub_1'],
+    assumptions=['partition: d < 0 and bit/64 below the lowest non-zero limb'] + LZ_ASM[:1] + COMBIT_ASM,
+    functions={'__gmpz_combit': dict(entry=ENTRY, rewrites=COMBIT_REWRITE,
+        inserts=[(r'mp_limb_t x = -dp\[limb_index\];', r'\g<0> __CPROVER_assume (limb_index >= g_lz || dp[limb_index] == 0);'),
+                 (r'__gmpn_sub_1\(dp\+limb_index, dp\+limb_index, dsize \+ limb_index, bit\);',
+                  r'{ long V_sk = gk, V_sj = gj; gk = gk >= limb_index ? gk - limb_index : V_NMAX; gj = gj >= limb_index ? gj - limb_index : V_NMAX; \g<0> gk = V_sk; gj = V_sj; }')],
+        loops={0: 'unreachable', 1: 'unreachable',
+               2: dict(scalars=['i', 'x'], inv='(-1 <= i && i < limb_index && x == 0)', dec='i + 1', begin='__CPROVER_assume (i >= g_lz || dp[i] == 0);'),
+               3: 'unreachable', 4: 'unreachable', 5: 'unreachable', 6: norm_loop('dp', 'dsize')})},
+    replay='mpz_combit', harness=(SETBIT_H.replace('h_mpz_setbit', 'h_mpz_combit_neg_low').replace('mp_limb_t Dk = ', '__CPROVER_assume (sd < 0 && li < lz); g_ci = 0; g_co = 0;\n  mp_limb_t Dk = ')) % dict(D=mpz_obj('D'), f='__gmpz_combit', post=COMBIT_NEG_POST),
+    timeout=900,
+    selftest=[('__gmpz_combit', r'for \(i = limb_index-1; i >= 0; i--\)', 'for (i = limb_index-2; i >= 0; i--)'), ('__gmpz_combit', r'\(\(d\)->_mp_size\) = -dsize;', '((d)->_mp_size) = dsize;')]))
